@@ -20,6 +20,8 @@ pub fn respond(line: &str) -> String {
         "trav" => trav::trav(rest),
         "dec" => dec::dec(rest),
         "parse" => parse::parse(rest),
+        "parseb" => parse::parseb(rest),
+        "parsew" => parse::parsew(rest),
         "asm" => parse::asm(rest),
         "load" => load::load(rest),
         "build" => build::build(rest),
